@@ -175,6 +175,10 @@ FRONT_RULE = ("generated setup files (struct pairs over a type alphabet of basic
               "lines, gofmt-canonical text of every generated function; distinct = distinct generated function texts, "
               "non-trivial = cases with >=3 generator features or a warning/error branch")
 
+SPEC_RULE = ("; specification judge (independent of the model): the property's relation is evaluated on the implementation's "
+             "output from the go/types facts and the notations written in the setup file (rule applications are counted in the "
+             "distribution as rule-applied:*)")
+
 RENDER = ["Convergen.Bridge.Render"]
 TABLES = ["Convergen.Bridge.Tables"]
 
@@ -248,7 +252,7 @@ PROPS = {
         "bridge": RENDER + TABLES,
         "sweeps": [sweep_front("matching", 150, 4000, cats=["body", "slice", "stderr"]),
                    sweep_front("mixed", 60, 2000, cats=["body", "slice", "stderr"])],
-        "rule": FRONT_RULE % "matching",
+        "rule": FRONT_RULE % "matching" + SPEC_RULE,
         "explanation": "fieldDefault_spec: the default matcher returns `no match` exactly when every candidate (getters under :getter "
                        "first, then fields; none under :match none) yields nothing, otherwise the statement of the first candidate that "
                        "yields one; tryCand_some/tryCand_none: a candidate yields a statement iff it is accessible, has the same name under "
@@ -264,7 +268,7 @@ PROPS = {
         "sweeps": [sweep_front("nesting", 120, 4000, cats=["body", "slice", "stderr"]),
                    sweep_front("imports", 80, 2000, cats=["body", "slice", "stderr"]),
                    sweep_front("mixed", 60, 2000, cats=["body", "slice", "stderr"])],
-        "rule": FRONT_RULE % "nesting",
+        "rule": FRONT_RULE % "nesting" + SPEC_RULE,
         "explanation": "Cover.covered_once: for every result of structToStruct, at every depth, every destination leaf reachable through "
                        "accessible members lies under exactly one line (on itself or on an enclosing member); marks_reachable: nothing else "
                        "is mentioned (so unexported members of imported types never are); marks_prefix_free: no member is written twice, "
@@ -278,9 +282,16 @@ PROPS = {
         "sweeps": [sweep_front("notations", 160, 4000, cats=["body", "slice", "stderr"]),
                    sweep_front("nesting", 80, 2000, cats=["body", "slice", "stderr"]),
                    sweep_front("casefold", 60, 2000, cats=["body", "slice", "stderr"])],
-        "rule": FRONT_RULE % "notations",
+        "extra_modules": ["Convergen.Props.C04", "Convergen.Props.BuilderInv"],
+        "rule": FRONT_RULE % "notations" + SPEC_RULE,
         "explanation": "precedence chain skip > conv > map > $n-map > literal > default proved clause by clause on matchField; "
-                       "explicit lookups ignore the case rule; witness for :skip on a nested path under a whole-struct copy (finding)",
+                       "explicit lookups ignore the case rule; $1 is the source operand at every depth (templated_third); "
+                       "whole_copy_only_if_nothing_beneath: the default matcher assigns a struct member as a whole only if no member "
+                       "beneath it (through by-value struct members, any depth) matches :skip or is named by :conv/:map/:literal "
+                       "(addressedBelow_false); specification judge on the implementation's output: skipped members are not assigned "
+                       "directly or through an enclosing copy, :map/:literal members get exactly their source; the remaining corners "
+                       "(explicit notation on the enclosing member, pointer members, member without a same-named source struct) are "
+                       "listed findings with corpus inputs",
         "assumptions": ["the order of the chain in the Go source is pinned by Bridge.precedence_eq"],
     },
     "C07": {
@@ -306,8 +317,11 @@ PROPS = {
         "sweeps": [sweep_front("scoping", 150, 4000)],
         "rule": FRONT_RULE % "scoping",
         "explanation": "a toggle line sets exactly its toggle (last writer wins), invalid-here notations are ignored, interface "
-                       "level carries no lists, method options are a function of (interface options, own lines)",
-        "assumptions": [],
+                       "level carries no lists; isolation: what parseMethod yields (options, diagnostics, failure) depends on the "
+                       "parser state only through the method's own doc comment (parseMethod_local), parsing a method touches no "
+                       "other comment group or doc pointer (parseMethod_frame), hence a method parsed after any other contributes "
+                       "exactly what it contributes alone (method_isolated); every method starts from its interface's options",
+        "assumptions": ["distinct interface methods have distinct doc nodes and comment groups (go/ast): evaluated by the driver on every input (methodsApart)"],
     },
     "C10": {
         "bridge": RENDER,
